@@ -8,7 +8,7 @@ package criteria_omission
 //@ func omitCriteria
 //@   property C15 C07
 //@   requires model.rearranged(*omissionOrderCriteria, current.Criteria)
-//@   requires model.coversAll(*listener, current.MethodParameters, current.Criteria)
+//@   requires model.coversAll(*listener, current.MethodParameters, current.Criteria) && model.validParams(*listener, current.MethodParameters)
 //@   ensures [omitted_are_first] *result1 == (*omissionOrderCriteria)[0:criteria_splitting.pivot(len(*omissionOrderCriteria), *parsedProps)]
 //@   ensures [kept_are_rest] fresh(result0) && result0.Criteria == (*omissionOrderCriteria)[criteria_splitting.pivot(len(*omissionOrderCriteria), *parsedProps):]
 //@   ensures [omitted_elements] result1 != nil && len(*result1) == criteria_splitting.pivot(len(*omissionOrderCriteria), *parsedProps)
@@ -19,7 +19,7 @@ package criteria_omission
 //@   ensures [alternatives_restricted] len(result0.ConsideredAlternatives) == len(current.ConsideredAlternatives) && len(result0.NotConsideredAlternatives) == len(current.NotConsideredAlternatives)
 //@             && (forall i int :: 0 <= i && i < len(current.ConsideredAlternatives) ==> model.restrictedTo(result0.ConsideredAlternatives[i], current.ConsideredAlternatives[i], result0.Criteria))
 //@             && (forall i int :: 0 <= i && i < len(current.NotConsideredAlternatives) ==> model.restrictedTo(result0.NotConsideredAlternatives[i], current.NotConsideredAlternatives[i], result0.Criteria))
-//@   ensures [parameters_restricted] model.coversAll(*listener, result0.MethodParameters, result0.Criteria)
+//@   ensures [parameters_restricted] model.coversAll(*listener, result0.MethodParameters, result0.Criteria) && model.validParams(*listener, result0.MethodParameters)
 //@   ensures [fresh_state] fresh(result0.ConsideredAlternatives) && fresh(result0.NotConsideredAlternatives)
 
 //@ func (*CriteriaOmission).Apply
